@@ -45,6 +45,46 @@ pub fn run(ctx: &Ctx, rep: &mut Report) {
                 continue;
             }
         };
+        // every third world: the dictionaries are written in the older formats that have no synonym group ids (system
+        // version 1, user version 2): same bytes under the older magic number, and the last word record - the last
+        // bytes of the image - really ends where those formats end it, before the (here: final) synonym array
+        let world = if wi % 3 == 2 {
+            let mut w = world;
+            let strip = |bytes: &[u8], magic_new: u64, magic_old: u64, last_syn: usize| -> Option<Vec<u8>> {
+                let cut = 1 + 4 * last_syn;
+                if bytes.len() < 8 + cut || bytes[..8] != magic_new.to_le_bytes() {
+                    return None;
+                }
+                let mut b = bytes[..bytes.len() - cut].to_vec();
+                b[..8].copy_from_slice(&magic_old.to_le_bytes());
+                Some(b)
+            };
+            let sys_old = strip(&w.sys_bytes, 0xce9f011a92394434, 0x7366d3f18bd111e7, w.sys.entries.last().map(|e| e.synonyms.len()).unwrap_or(0));
+            let users_old: Vec<Option<Vec<u8>>> = w.user_bytes.iter().zip(w.users.iter()).map(|(b, l)| strip(b, 0xca9811756ff64fb0, 0x9fdeb5a90168d868, l.entries.last().map(|e| e.synonyms.len()).unwrap_or(0))).collect();
+            if let (Some(so), true) = (sys_old, users_old.iter().all(|u| u.is_some())) {
+                let uo: Vec<Vec<u8>> = users_old.into_iter().map(|u| u.unwrap()).collect();
+                let cfg = crate::env::config(&w.cfg_json, &w.res);
+                match guard(|| crate::env::load(&cfg, &so, &uo, Place::Owned)) {
+                    Ok(Ok(d)) => {
+                        w.dict = d;
+                        w.sys_bytes = so;
+                        w.user_bytes = uo;
+                        rep.count("worlds_in_the_formats_without_synonym_ids", 1);
+                    }
+                    Ok(Err(e)) => {
+                        rep.violation("subset_error", "from_cfg_storage", &format!("the stack loads in the current formats but not when written in the formats without synonym group ids: {:?}", e), "", json!({"world_index": wi}));
+                        continue;
+                    }
+                    Err(pn) => {
+                        rep.violation("subset_panic", &pn.site, &format!("loading the stack in the formats without synonym group ids: {}", pn.msg), "", json!({"world_index": wi}));
+                        continue;
+                    }
+                }
+            }
+            w
+        } else {
+            world
+        };
         rep.count("worlds", 1);
         let has_pr = world.plugins.join_numeric.is_some() || world.plugins.join_katakana.is_some();
         let lex = world.dict.lexicon();
